@@ -5258,7 +5258,7 @@ static INLINE int get_segment_id(Av1Common *cm, const uint8_t *segment_ids, Bloc
     return segment_id;
 }
 
-int get_spatial_seg_prediction(PictureControlSet *pcs_ptr, uint32_t blk_origin_x,
+int get_spatial_seg_prediction(PictureControlSet *pcs_ptr, MacroBlockD *xd, uint32_t blk_origin_x,
                                uint32_t blk_origin_y, int *cdf_index) {
     int prev_ul = -1; // top left segment_id
     int prev_l  = -1; // left segment_id
@@ -5267,8 +5267,9 @@ int get_spatial_seg_prediction(PictureControlSet *pcs_ptr, uint32_t blk_origin_x
     uint32_t mi_col = blk_origin_x >> MI_SIZE_LOG2;
     uint32_t mi_row = blk_origin_y >> MI_SIZE_LOG2;
 
-    EbBool                   left_available   = mi_col > 0 ? EB_TRUE : EB_FALSE;
-    EbBool                   up_available     = mi_row > 0 ? EB_TRUE : EB_FALSE;
+    // neighbours outside the current tile are not available to the decoder
+    EbBool                   left_available   = xd->left_available ? EB_TRUE : EB_FALSE;
+    EbBool                   up_available     = xd->up_available ? EB_TRUE : EB_FALSE;
     Av1Common *              cm               = pcs_ptr->parent_pcs_ptr->av1_cm;
     SegmentationNeighborMap *segmentation_map = pcs_ptr->segmentation_neighbor_map;
 
@@ -5353,7 +5354,7 @@ void write_segment_id(PictureControlSet *pcs_ptr, FRAME_CONTEXT *frame_context, 
         return;
     int       cdf_num;
     const int spatial_pred = get_spatial_seg_prediction(
-        pcs_ptr, blk_origin_x, blk_origin_y, &cdf_num);
+        pcs_ptr, blk_ptr->av1xd, blk_origin_x, blk_origin_y, &cdf_num);
     if (skip_coeff) {
         //        SVT_LOG("BlockY = %d, BlockX = %d \n", blk_origin_y>>2, blk_origin_x>>2);
         update_segmentation_map(pcs_ptr, bsize, blk_origin_x, blk_origin_y, spatial_pred);
